@@ -146,7 +146,25 @@ def main():
         except OutOfSubset as e:
             out_of_reach.append({"contract": "lemmas:" + a.prop, "reason": str(e)})
     timeout = float(os.environ.get("VERIF_GOAL_TIMEOUT") or (60 if a.tier == "quick" else 180))
-    stats = smt.discharge(goals, timeout_s=timeout, both=(a.tier == "thorough"), seed=a.seed % 1000)
+    baseline_p = os.path.join(HERE, "specs", "baseline_goals.json")
+    baseline = json.load(open(baseline_p)) if os.path.exists(baseline_p) else {}
+    # stage 1: z3 (E-matching) on everything
+    stats = smt.discharge(goals, timeout_s=timeout, seed=a.seed % 1000, stages=("z3",))
+    open1 = [g for g in goals if g.status != "unsat"]
+    same = [g for g in open1 if baseline.get(g.name) == smt.goal_hash(g)]      # text identical to a discharged baseline goal
+    diff = [g for g in open1 if baseline.get(g.name) != smt.goal_hash(g)]      # new or changed obligation
+    def _add(st2):
+        for k_ in stats:
+            stats[k_] += st2[k_]
+    if same:
+        # a solver flake by construction: full portfolio, generous budget
+        _add(smt.discharge(same, timeout_s=timeout * 4, seed=a.seed % 1000, stages=("z3-mbqi", "cvc5", "z3")))
+    if diff:
+        # changed obligations: full portfolio on the first few, the rest stay as stage 1 left them
+        _add(smt.discharge(diff[:12], timeout_s=timeout, seed=a.seed % 1000, stages=("z3-mbqi", "cvc5")))
+    if a.tier == "thorough":
+        # every discharged obligation is re-checked by cvc5 as well
+        _add(smt.discharge([g for g in goals if g.status == "unsat"], timeout_s=timeout, stages=("cvc5",), both=True))
     # vacuity guard: every precondition must be satisfiable / not refutable
     import z3
     vacuous = []
@@ -156,22 +174,9 @@ def main():
             s.add(h)
         if str(s.check()) == "unsat":
             vacuous.append(key)
-    baseline_p = os.path.join(HERE, "specs", "baseline_goals.json")
-    baseline = json.load(open(baseline_p)) if os.path.exists(baseline_p) else {}
     open_goals = [g for g in goals if g.status != "unsat"]
-    flaky = []
-    changed = []
-    for g in open_goals:
-        h = smt.goal_hash(g)
-        if baseline.get(g.name) == h:
-            flaky.append(g)
-        else:
-            changed.append(g)
-    if flaky:
-        for g in flaky:
-            g.status = None
-        smt.discharge(flaky, timeout_s=timeout * 6, both=True)
-        flaky = [g for g in flaky if g.status != "unsat"]
+    flaky = [g for g in open_goals if baseline.get(g.name) == smt.goal_hash(g)]
+    changed = [g for g in open_goals if baseline.get(g.name) != smt.goal_hash(g)]
     if a.update_baseline:
         for k in [k for k in baseline if k.startswith(tuple(c.key + ":" for c in contracts)) or k.startswith("lemma:%s:" % a.prop)]:
             del baseline[k]
